@@ -165,7 +165,10 @@ Proof.
     rewrite (shift_w_eq d l G) in A. destruct (dur_guard_spec d l G) as ([Hwf _] & _).
     apply segs_eqb_eq in A. subst obs. apply pointwise_intro. intros t. apply shift_is_translation. exact Hwf.
   - (* KSum *)
-    apply andb_prop in G. destruct G as [G1 G2]. apply Z.leb_le in G2. apply segs_eqb_eq in A. subst obs.
+    apply andb_prop in G. destruct G as [G1 G2]. apply Z.leb_le in G2. rewrite (sum_w_eq ls G1) in A.
+    apply segs_eqb_eq in A. subst obs.
+    assert (Hwf : forallb segs_wf ls = true).
+    { apply forallb_forall. intros l Hl. rewrite forallb_forall in G1. apply (lens_ok_b_spec l (G1 l Hl)). }
     apply pointwise_intro. intros t. apply sum_is_pointwise_tail; assumption.
   - (* KModeMagAt *)
     apply guard2 in G. destruct G as [Gw Gd]. rewrite (mode_magnitude_at_w_eq t m Gd) in A.
@@ -199,17 +202,17 @@ Proof.
       destruct (mode_shift_without_start d m x Hs (mode_wf_segs m G)) as [_ V]. exact V.
   - (* KModeSum *)
     apply guard2 in G. destruct G as [G Gs]. rewrite (mode_sum_w_eq ms Gs) in A.
-    apply andb_prop in G. destruct G as [G1 G2].
+    apply andb_prop in G. destruct G as [G1 G2]. apply Z.leb_le in G2. fold (modes_tail ms) in G2.
     apply (option_eqb_eq mode_eqb mode_eqb_eq) in A. subst obs.
     destruct ms as [|m0 ms']; [reflexivity|].
     assert (Hwf : forallb (fun m => segs_wf (msegs m)) (m0 :: ms') = true).
     { apply forallb_forall. intros m Hm. rewrite forallb_forall in G1. apply mode_wf_segs. apply G1. exact Hm. }
     assert (Hne : m0 :: ms' <> []) by discriminate.
     destruct (starts (m0 :: ms')) as [|s0 rest] eqn:Hst.
-    + destruct (mode_sum_no_start (m0 :: ms') 0 Hne Hst Hwf G2) as (r & E & Hr & _). rewrite E. rewrite Hr. simpl negb.
+    + destruct (mode_sum_no_start_tail (m0 :: ms') 0 Hne Hst Hwf G2) as (r & E & Hr & _). rewrite E. rewrite Hr. simpl negb.
       apply pointwise_intro. intros x.
-      destruct (mode_sum_no_start (m0 :: ms') x Hne Hst Hwf G2) as (r' & E' & _ & V). rewrite E in E'. inversion E'. subst r'. exact V.
-    + destruct (mode_sum_is_pointwise (m0 :: ms') s0 rest Hne Hst Hwf G2) as (r & E & Hr & V). rewrite E. rewrite Hr.
+      destruct (mode_sum_no_start_tail (m0 :: ms') x Hne Hst Hwf G2) as (r' & E' & _ & V). rewrite E in E'. inversion E'. subst r'. exact V.
+    + destruct (mode_sum_is_pointwise_tail (m0 :: ms') s0 rest Hne Hst Hwf G2) as (r & E & Hr & V). rewrite E. rewrite Hr.
       apply andb_true_intro. split.
       * simpl. unfold ts_eqb. rewrite !Z.eqb_refl. reflexivity.
       * apply forallb_forall. intros x _.
